@@ -33,7 +33,10 @@ def fingerprints(prop: str, n: int, workers: int, tier: str = "quick", batch: in
     check, engine = _module(prop)
     from dst.c20.engine import run_seed
 
-    tasks = [{"index": i, "seed": run_seed(prop, batch, i), "tier": tier} for i in range(n)]
+    idx = list(range(n))
+    if prop == "C09":  # half systematic prefix, half random histories (beyond the prefix)
+        idx = list(range(0, 40000, max(1, 40000 // (n // 2)))) [: n // 2] + list(range(60000, 60000 + n - n // 2))
+    tasks = [{"index": i, "seed": run_seed(prop, batch, i), "tier": tier, "batch": batch} for i in idx]
     out = {}
     for res in proc.pool_map(check.handler, tasks, workers=workers):
         if "harness_error" in res:
